@@ -557,7 +557,7 @@ const TOK_NAMES: &[&str] = &[
 const TYPES: &[&str] = &["u64", "Result<u64, ()>", "std::vec::Vec<u8>", "(u64, T<'a>)", "Option<crate::X>", "()", "Vec<\u{e9}>"];
 const ACTION_BITS: &[&str] = &[
     "$$ = $1;", "Ok($1)", "x + 1", "\"s\"", "'c'", "match a { _ => {} }", "if x { y } else { z }", "let \u{e9} = 1;", "\n", "  ", "{}",
-    "{ { } }", "$2", "/* c */", "\r\n", "|", ";", "%%",
+    "{ { } }", "$2", "/* c */", "\r\n", "|", ";", "%%", "'\"'", "b'\"' as u32",
 ];
 const EPP_BITS: &[&str] = &["a", " ", "'", "\"", "\u{e9}", "+", "plus", "{", "//", "/*"];
 
